@@ -427,10 +427,15 @@ template<>
 FASTOR_INLINE void _transpose_dispatch<float,8,8>(const float * FASTOR_RESTRICT a, float * FASTOR_RESTRICT out) {
     _transpose<float,8,8>(a,out);
 }
+// only when the 16x16 kernel exists: otherwise _transpose<float,16,16> is the blocked generic
+// which dispatches back to here whenever its block is 16x16 (AVX-512F without DQ, or 8-wide
+// vectors with both block-size macros set to 2) and the mutual recursion cannot be inlined
+#if defined(FASTOR_AVX512F_IMPL) && defined(FASTOR_AVX512DQ_IMPL)
 template<>
 FASTOR_INLINE void _transpose_dispatch<float,16,16>(const float * FASTOR_RESTRICT a, float * FASTOR_RESTRICT out) {
     _transpose<float,16,16>(a,out);
 }
+#endif
 template<>
 FASTOR_INLINE void _transpose_dispatch<double,2,2>(const double * FASTOR_RESTRICT a, double * FASTOR_RESTRICT out) {
     _transpose<double,2,2>(a,out);
